@@ -11,5 +11,6 @@ func TestMain(m *testing.M) {
 		"C17mcrew": C17mcrew,
 		"C16":      C16,
 		"C14mcrew": C14mcrew,
+		"C13mcrew": C13mcrew,
 	})
 }
